@@ -831,7 +831,7 @@ fn fs_scenarios(tier: &str, prefix: &'static str, alphabet: Alpha, moving_clock:
     let mut out = Vec::new();
     let quick = tier == "quick";
     // V16b has two blocks per cluster and a single FAT: multi-block clusters are where zeroing / range slips show
-    let kinds: &[VolKind] = if quick { &[VolKind::V16a, VolKind::V16b, VolKind::V32a] } else { &[VolKind::V16a, VolKind::V16b, VolKind::V32a, VolKind::V32b] };
+    let kinds: &[VolKind] = &[VolKind::V16a, VolKind::V16b, VolKind::V32a, VolKind::V32b];
     let frees: &[Option<usize>] = if quick { &[None, Some(1)] } else { &[None, Some(3), Some(2), Some(1), Some(0)] };
     for &k in kinds {
         for &fr in frees {
@@ -862,7 +862,7 @@ pub fn c03_def() -> HistProp {
         level: "model_checking",
         scenarios: |t| fs_scenarios(t, "fsck", Alpha::MutateFail, false),
         oracles: || vec![Box::new(Fsck)],
-        budget_s: |t| if t == "quick" { 45 } else { 900 },
+        budget_s: |t| if t == "quick" { 50 } else { 900 },
         max_states: 3_000_000,
         assumptions: &["refat's fsck is the structural reference; checked on the raw image after every call and on a scratch replay with all open files flushed"],
     }
@@ -874,7 +874,7 @@ pub fn c04_def() -> HistProp {
         level: "model_checking",
         scenarios: |t| fs_scenarios(t, "bounds", Alpha::MutateFail, false),
         oracles: || vec![Box::new(WriteBounds)],
-        budget_s: |t| if t == "quick" { 45 } else { 900 },
+        budget_s: |t| if t == "quick" { 50 } else { 900 },
         max_states: 3_000_000,
         assumptions: &["a victim partition lies directly behind the volume; the device accepts and records out-of-volume writes so the oracle can judge them"],
     }
@@ -923,7 +923,7 @@ pub fn c05_def() -> HistProp {
                 }),
             ]
         },
-        budget_s: |t| if t == "quick" { 45 } else { 900 },
+        budget_s: |t| if t == "quick" { 50 } else { 900 },
         max_states: 3_000_000,
         assumptions: &["fills start at the end of the file, so capacity = room in the last cluster + free clusters x cluster size", "leaks are judged differentially against the pre-state with all open files flushed"],
     }
@@ -967,7 +967,7 @@ pub fn c16_def() -> HistProp {
         level: "model_checking",
         scenarios: c16_scenarios,
         oracles: || vec![Box::new(FatCopies), Box::new(StaleTwin), Box::new(TwinOracle::default())],
-        budget_s: |t| if t == "quick" { 45 } else { 900 },
+        budget_s: |t| if t == "quick" { 50 } else { 900 },
         max_states: 3_000_000,
         assumptions: &["free-count truthfulness is judged as: stored count minus count at mount = change of the number of free FAT entries by scan", "a history on a volume with a stale record must return the same results as on the twin volume with a correct record"],
     }
@@ -1000,7 +1000,7 @@ pub fn c02_def() -> HistProp {
             v
         },
         oracles: || vec![Box::new(Durable)],
-        budget_s: |t| if t == "quick" { 45 } else { 900 },
+        budget_s: |t| if t == "quick" { 50 } else { 900 },
         max_states: 2_000_000,
         assumptions: &["the remount oracle runs at every state on a snapshot of the medium, through a fresh VolumeManager and through refat", "clock values have even seconds; zero-length writes are not in the alphabet"],
     }
@@ -1157,7 +1157,7 @@ impl Oracle for CrashDurability {
 fn crash_scenarios(tier: &str, prefix: &'static str) -> Vec<(String, ScenMaker)> {
     let mut out = Vec::new();
     let quick = tier == "quick";
-    let kinds: &[VolKind] = if quick { &[VolKind::V16a, VolKind::V16b, VolKind::V32a] } else { &[VolKind::V16a, VolKind::V16b, VolKind::V32a, VolKind::V32b] };
+    let kinds: &[VolKind] = &[VolKind::V16a, VolKind::V16b, VolKind::V32a, VolKind::V32b];
     for &k in kinds {
         for (fr, sub_free) in [(None, 1usize), (None, 0), (Some(3usize), 0)] {
             if quick && fr.is_some() {
@@ -1178,7 +1178,7 @@ pub fn c09_def() -> HistProp {
         level: "fault_enumeration",
         scenarios: |t| crash_scenarios(t, "crash-dur"),
         oracles: || vec![Box::new(CrashDurability)],
-        budget_s: |t| if t == "quick" { 45 } else { 900 },
+        budget_s: |t| if t == "quick" { 50 } else { 900 },
         max_states: 2_000_000,
         assumptions: &["block writes are atomic and ordered (as the property assumes)", "every prefix of the write log of every explored transition is a crash image"],
     }
@@ -1190,7 +1190,7 @@ pub fn c10_def() -> HistProp {
         level: "fault_enumeration",
         scenarios: |t| crash_scenarios(t, "crash"),
         oracles: || vec![Box::new(CrashConsistency)],
-        budget_s: |t| if t == "quick" { 45 } else { 900 },
+        budget_s: |t| if t == "quick" { 50 } else { 900 },
         max_states: 2_000_000,
         assumptions: &["block writes are atomic and ordered (as the property assumes)", "free clusters carry a stale pattern of plausible directory entries so exposure of uninitialised contents is visible", "permitted residue: allocated-but-unreferenced clusters and a size not yet updated"],
     }
